@@ -189,6 +189,10 @@ func (idx *KVIndex) RemoveDoc(docID string) error {
 			return fmt.Errorf("failed to unmarshal document: %v", err)
 		}
 		for _, entryKey := range doc.Entries {
+			//the entry is already gone when its field was removed in the meantime
+			if _, err := tx.Get(entryKey); err != nil {
+				continue
+			}
 			field, ttype, term, _ := EntryKeyParse(entryKey)
 			termKey := TermKey(field, ttype, term)
 			//count the term while the entry is still there: a recount must include it,
